@@ -9,6 +9,7 @@
   (known finding F6) and the part that does hold, `panic_sticky_partial`.
 -/
 import BB.Proofs.Caster
+import BB.Proofs.CasterLive
 
 namespace BB.Props.C08
 open BB.LTS BB.Caster BB.Fun
@@ -166,6 +167,88 @@ theorem absorbing_never_stuck (s : St) (hr : Reach sys s) (r : Nat) (hpc : (s.re
   obtain ⟨a, ha⟩ := this
   obtain ⟨_, _, h2, _⟩ := h.armed a ha
   exact ⟨a, by simp [sys, step, ha, hpc, hk]; omega⟩
+
+/-! ### Liveness: a Send cannot block forever when receivers follow the contract -/
+
+/-- between a point where `p` holds and a later point where it does not, there is a step at which it stops holding -/
+theorem last_before_change (p : Nat → Prop) (i j : Nat) (hij : i ≤ j) (hi : p i) (hj : ¬ p j) : ∃ k, i ≤ k ∧ k < j ∧ p k ∧ ¬ p (k + 1) := by
+  induction j with
+  | zero => have : i = 0 := by omega
+            subst this; exact absurd hi hj
+  | succ j ih =>
+    by_cases hpj : p j
+    · by_cases e : i ≤ j
+      · exact ⟨j, e, by omega, hpj, hj⟩
+      · have : i = j + 1 := by omega
+        subst this; exact absurd hi hj
+    · by_cases e : i ≤ j
+      · obtain ⟨k, h1, h2, h3, h4⟩ := ih e hpj
+        exact ⟨k, h1, by omega, h3, h4⟩
+      · have : i = j + 1 := by omega
+        subst this; exact absurd hi hj
+
+/-- SEND RETURNS.  Along every run that is weakly fair for the steps of the Send holding the mutex and for the rendezvous
+    in which a receiver takes its next value (receivers follow the contract: each registration is resolved by receiving or
+    by a negative Add — both make progress), a Send that holds the mutex at step `i` returns: there is a later step at
+    which it performs its final unlock, with a return value.  (The rank argument is in `BB/Proofs/CasterLive.lean`: a
+    failed CAS is paid for by the deregistration that caused it, registrations cannot happen while the mutex is held.) -/
+theorem send_holding_the_mutex_returns (a : Nat) (r : Run sys) (hfair : WeakFair sys (fun _ act => holderStep a act) r)
+    (i : Nat) (hi : inW ((r.st i).senders a).pc = true) :
+    ∃ k, i ≤ k ∧ r.act k = some (.sunlock a) ∧ ((r.st (k + 1)).senders a).pc = .done := by
+  obtain ⟨j, hij, hj⟩ := holder_leadsTo_out a r hfair i
+  obtain ⟨k, h1, _, h3, h4⟩ := last_before_change (fun n => inW ((r.st n).senders a).pc = true) i j hij hi (by simp [hj])
+  have hn := r.next k
+  cases ha : r.act k with
+  | none => simp only [ha] at hn; rw [hn] at h4; exact absurd h3 h4
+  | some act =>
+    simp only [ha] at hn
+    have hout : inW ((r.st (k + 1)).senders a).pc = false := by cases e : inW ((r.st (k + 1)).senders a).pc <;> simp_all
+    obtain ⟨hd, hact⟩ := holder_exit_is_return a (cinv_reach _ (run_reach _ r k)) (cinv_reach _ (run_reach _ r (k + 1))) h3 hn hout
+    exact ⟨k, h1, by rw [ha, hact], hd⟩
+
+/-! a weakly fair run to which the theorem applies: the run of the non-vacuity example below, then stuttering -/
+def demoActs : Nat → Option Act
+  | 0 => some (.rlock 0 1) | 1 => some (.radd 0) | 2 => some (.runlock 0) | 3 => some (.rlock 1 1) | 4 => some (.radd 1)
+  | 5 => some (.runlock 1) | 6 => some (.sbegin 0 42) | 7 => some (.slock 0) | 8 => some (.sload 0) | 9 => some (.scas 0)
+  | 10 => some (.neg 1 1) | 11 => some (.deliver 0 0) | 12 => some (.absorb 0 1) | 13 => some (.scheck 0) | 14 => some (.sunlock 0)
+  | _ => none
+
+def demoSt : Nat → St
+  | 0 => sys.init
+  | n + 1 => match demoActs n with
+    | some act => (sys.step (demoSt n) act).getD (demoSt n)
+    | none => demoSt n
+
+theorem demoSt_final (k : Nat) : demoSt (k + 15) = demoSt 15 := by
+  induction k with
+  | zero => rfl
+  | succ k ih => show demoSt (k + 15) = demoSt 15; exact ih
+
+def demoRun : Run sys where
+  st := demoSt
+  act := demoActs
+  start := rfl
+  next := by
+    intro i
+    match i with
+    | 0 => rfl | 1 => rfl | 2 => rfl | 3 => rfl | 4 => rfl | 5 => rfl | 6 => rfl | 7 => rfl | 8 => rfl | 9 => rfl
+    | 10 => rfl | 11 => rfl | 12 => rfl | 13 => rfl | 14 => rfl
+    | k + 15 => rfl
+
+theorem demoRun_fair : WeakFair sys (fun _ act => holderStep 0 act) demoRun := by
+  intro i hen
+  by_cases hi : i ≤ 14
+  · exact ⟨14, hi, _, rfl, Or.inr (Or.inr (Or.inr (Or.inl rfl)))⟩
+  · exfalso
+    obtain ⟨act, hH, he⟩ := hen i (Nat.le_refl _)
+    have hst : demoRun.st i = demoSt 15 := by
+      have := demoSt_final (i - 15); rwa [show i - 15 + 15 = i by omega] at this
+    rw [hst] at he
+    have hpc : ((demoSt 15).senders 0).pc = .done := by rfl
+    rcases hH with e | e | e | e | ⟨x, e⟩ | ⟨x, e⟩ <;> subst e <;> simp [enabled, sys, step, hpc] at he
+
+example : ∃ k, 9 ≤ k ∧ demoRun.act k = some (.sunlock 0) ∧ ((demoRun.st (k + 1)).senders 0).pc = .done :=
+  send_holding_the_mutex_returns 0 demoRun demoRun_fair 9 (by rfl)
 
 /-- non-vacuity: two receivers register; a Send arms with 2; one deregisters during the Send and absorbs one
     value, the other receives; Send returns 1 = deliveries, 1 + 1 absorbed = 2 registered, word back to 0 -/
